@@ -14,6 +14,7 @@
 import PtProofs.AccessLemmas
 import PtProofs.PadLemmas
 import PtProofs.C02
+import PtProofs.ReduceLemmas
 namespace Pt
 
 /-- all accesses of a one-element access list with `ok = true` are ok -/
@@ -294,6 +295,17 @@ theorem where_accesses_inbounds (oc ox oy : BOpd) (vc vx vy : Option (Arr Val)) 
       acc.ok = true ∧ acc.affine = true :=
   whereExpr_accesses oc ox oy vc vx vy r binds i hr h1 h2 h3 hi
 
+/-- every access of a lowered reduction (`sum, prod, amax, amin, all, any`), in
+    every iteration of every reduction variable, is an affine, in-bounds read of
+    the operand — any rank, any set of reduction axes -/
+theorem reduce_accesses_inbounds (op : RedOp) (a : Arr Val) (axes : Option (List Nat)) (e : SExpr)
+    (binds : List (String × Arr Val)) (i : Idx)
+    (he : Lower.reduceExpr op a.shape axes = some e)
+    (hl : Raise.lookupEnv binds "in" = some a)
+    (hi : inB (Spec.reduceV op axes a).shape i = true) :
+    ∀ acc ∈ accesses (idxEnv i binds) e, acc.ok = true ∧ acc.affine = true :=
+  reduceExpr_accesses op a axes e binds i he hl hi
+
 /-! ## non-vacuity: the hypotheses are those of C02 (instances there); here the
     access lists of concrete instances, computed -/
 
@@ -338,5 +350,11 @@ example : (accesses (idxEnv [3, 3] [("in_0", exArr)])
     evaluated at an index outside the output shape -/
 example : (accesses (idxEnv [5, 0] [("_in0", exArr)]) (Lower.roll (-4) 1 2 3)).map (·.ok)
     = [false] := by decide
+
+-- `sum(x, axis=1)` at output [1]: three reads of row 1
+example : ((Lower.reduceExpr .sum [2, 3] (some [1])).map fun e =>
+    (accesses (idxEnv [1] [("in", exArr)]) e).map (fun acc => (acc.idx, acc.affine, acc.ok)))
+      = some [([.i 1, .i 0], true, true), ([.i 1, .i 1], true, true), ([.i 1, .i 2], true, true)] := by
+  decide +kernel
 
 end Pt
